@@ -29,6 +29,8 @@ class LifecycleMon(Monitor):
         self.n_events = 0
         self.n_running_with_parents = 0
         self.n_refused = 0
+        self.nfail = {}            # id(op) -> accepted ->FAILED count     (evidence: multi-step life cycles)
+        self.nsusp = {}            # id(op) -> accepted ->SUSPENDING count
 
     def begin(self, h):
         h.log.listeners.append(lambda ev, rs, before: self.on_transition(h, ev, rs, before))
@@ -51,6 +53,22 @@ class LifecycleMon(Monitor):
             self.touched.add(op)
             if to == "assigned":
                 self.assigned_since.add(id(op))
+            elif to == "failed":
+                self.nfail[id(op)] = self.nfail.get(id(op), 0) + 1
+                if id(op) in self.nsusp:
+                    h.ev("lifecycle:operator_failed_after_a_resume")
+            elif to == "suspending":
+                self.nsusp[id(op)] = self.nsusp.get(id(op), 0) + 1
+                if id(op) in self.nfail:
+                    h.ev("lifecycle:operator_suspended_after_a_retry")
+            elif to == "completed":
+                f, u = self.nfail.pop(id(op), 0), self.nsusp.pop(id(op), 0)
+                if f >= 2:
+                    h.ev("lifecycle:operator_completed_after_two_or_more_failures")
+                if u >= 2:
+                    h.ev("lifecycle:operator_completed_after_two_or_more_suspensions")
+                if f and u:
+                    h.ev("lifecycle:operator_completed_after_failure_and_suspension")
             if to == "running":
                 if op.parents:
                     self.n_running_with_parents += 1
